@@ -55,7 +55,7 @@ def gen_case(rng, quick=True, impl=None, consts=None, pes=None):
                 newpos=[rs(dyadic(rng, -1, 1, 2)) for _ in range(n)],
                 constants=sorted(consts), point_estimates=sorted(pes), mirror=rng.random() < 0.7,
                 n_samples=rng.randint(1, 2), seed=rng.randint(0, 2 ** 31 - 1),
-                kl_map=rng.choice(["vmap", "lmap", "smap"]), ovi_jit=rng.random() < 0.4)
+                kl_map=rng.choice(["vmap", "lmap", "smap"]), ovi_jit=rng.random() < 0.4, driver=False)
 
 
 def _split(c, v):
@@ -163,6 +163,19 @@ def real_cl(c):
             out["mean2"] = flat(kl2.samples.mean, KEYS) if hasattr(kl2.samples, "mean") else None
             out["samples2"] = smp2
         out["mean"] = flat(kl.samples.mean, KEYS)
+        if c.get("driver") and var:
+            # the classic driver end to end: constants must come back bit-identical, the other keys move
+            nrandom.push_sseq_from_seed(c["seed"] % 2 ** 31)
+            try:
+                mini = ift.NewtonCG(ift.AbsDeltaEnergyController(1e-10, iteration_limit=3, convergence_level=2))
+                sl, pos2 = ift.optimize_kl(lh, 1, c["n_samples"], mini, ic, nonlinear_sampling_minimizer=None,
+                                           constants=list(c["constants"]), point_estimates=list(c["point_estimates"]),
+                                           initial_position=p, output_directory=None, plot_energy_history=False,
+                                           plot_minisanity_history=False, return_final_position=True, sanity_checks=False)
+            finally:
+                nrandom.pop_sseq()
+            out["okl_pos"] = flat(pos2, KEYS)
+            out["okl_mean"] = flat(sl.mean, KEYS) if hasattr(sl, "mean") else None
         return out
     return safe(go)
 
@@ -290,6 +303,15 @@ def oracle(case):
                 pass  # constants of the mean are checked bitwise below through the mean itself
         if not np.array_equal(r["mean"], pos):
             return ("sample list mean differs from the expansion point", dict(sig, what="mean"))
+        if "okl_pos" in r:
+            if ci and not np.array_equal(r["okl_pos"][ci], pos[ci]):
+                return (f"classic optimize_kl changed the constant keys {case['constants']}", dict(sig, what="constants_fixed"))
+            if vi and np.array_equal(r["okl_pos"][vi], pos[vi]) and np.max(np.abs(gref)) > 1e-6:
+                return ("classic optimize_kl did not move the non-constant keys although the gradient is non-zero",
+                        dict(sig, what="no_progress"))
+            if r.get("okl_mean") is not None and not np.array_equal(r["okl_mean"], r["okl_pos"]):
+                return ("classic optimize_kl: the returned sample list is not centred on the returned position",
+                        dict(sig, what="mean"))
     else:
         if ci and not np.array_equal(r["x_after"][ci], r["pos"][ci]):
             return (f"kl_minimize changed constant keys {case['constants']}", dict(sig, what="constants_fixed"))
@@ -323,6 +345,10 @@ def run(ctx):
     for cs, ps in splits:
         for impl in (("cl", "jax") if not ctx.quick else (rng.choice(["cl", "jax"]),)):
             cases.append(gen_case(rng, ctx.quick, impl=impl, consts=cs, pes=ps))
+    for _ in range(ctx.n(1, 6)):
+        c = gen_case(rng, ctx.quick, impl="cl", consts=[rng.choice(KEYS)], pes=rng.choice([[], [rng.choice(KEYS)]]))
+        c["driver"] = True
+        cases.append(c)
     lines, meta = [], []
     for c in cases:
         ctx.case(c, True)
